@@ -73,9 +73,14 @@ def main(argv):
         m = MUTANTS[name]
         d, repo = make_copy()
         try:
-            for e in m["edits"]:
-                apply_edit(repo, *e)
             line = f"{name:40s}"
+            try:
+                for e in m["edits"]:
+                    apply_edit(repo, *e)
+            except SystemExit as ex:
+                print(line + " ANCHOR-MISSING " + str(ex)[:100], flush=True)
+                bad += 1
+                continue
             if tests:
                 line += " tests[" + run_tests(repo)[-40:] + "]"
             for prop in m["props"]:
